@@ -697,6 +697,39 @@ structure CD where
 
 def CD.empty : CD := ⟨[], [], [], []⟩
 
+/-- `for output_directive in &subfield.output` (mod.rs:993–1019): explicit names are registered as
+given, implicit ones get the prefixes of the enclosing aliased edges. -/
+def registerPropertyOutputs (ref : FieldRefM) (localName : String) (st : St) :
+    List OutputDirective → FRes St
+  | [] => .ok st
+  | o :: rest =>
+    (match o.name with
+     | some explicit => st.registerOutput explicit ref
+     | none => st.registerLocalOutput localName "" ref >>= fun r => .ok r.1)
+    >>= fun st' => registerPropertyOutputs ref localName st' rest
+
+/-- `for tag_directive in &subfield.tag` (mod.rs:1021–1046). -/
+def registerPropertyTags (ref : FieldRefM) (defaultName : String) (st : St) (errs : List FrontErr) :
+    List TagDirective → St × List FrontErr
+  | [] => (st, errs)
+  | t :: rest =>
+    let r := st.registerTag (t.name.getD defaultName) ref
+    registerPropertyTags ref defaultName r.1
+      (if r.2 then errs else errs ++ [.MultipleTagsWithSameName]) rest
+
+/-- `properties.entry(key).and_modify(..).or_insert_with(..)` (mod.rs:975–991). -/
+def recordProperty (props : List PropRec) (cur : Vid) (fieldName : String) (ty : FTy)
+    (subFilters : List FilterDirective) : FRes (List PropRec) :=
+  match props.find? (fun p => p.vid == cur && p.name == fieldName) with
+  | some prior =>
+    -- `assert_eq!(subfield_name, prior_name)`, `assert_eq!(&subfield_raw_type, prior_type)`
+    if !(prior.name == fieldName && prior.ty == ty) then .panic .propertyRepeat
+    else .ok (props.map (fun p =>
+      if p.vid == cur && p.name == fieldName then
+        { p with occurrences := p.occurrences ++ [subFilters] }
+      else p))
+  | none => .ok (props ++ [⟨cur, fieldName, ty, [subFilters]⟩])
+
 /-- The property branch of the loop in `fill_in_vertex_data` (mod.rs:945–1046). -/
 def fillProperty (cur : Vid) (conn : FieldConnection) (subName : String) (subAlias : Option String)
     (subFilters : List FilterDirective) (subOutputs : List OutputDirective)
@@ -705,38 +738,44 @@ def fillProperty (cur : Vid) (conn : FieldConnection) (subName : String) (subAli
   let e1 := (if conn.fold.isSome then [FrontErr.UnsupportedDirectiveOnProperty] else []) ++
             (if conn.optional then [FrontErr.UnsupportedDirectiveOnProperty] else []) ++
             (if conn.recurse.isSome then [FrontErr.UnsupportedDirectiveOnProperty] else [])
-  -- `properties.entry(key).and_modify(..).or_insert_with(..)`
-  let propsRes : FRes (List PropRec) :=
-    match cd.props.find? (fun p => p.vid == cur && p.name == fieldName) with
-    | some prior =>
-      if !(prior.name == fieldName && prior.ty == ty) then .panic .propertyRepeat
-      else .ok (cd.props.map (fun p =>
-        if p.vid == cur && p.name == fieldName then { p with occurrences := p.occurrences ++ [subFilters] }
-        else p))
-    | none => .ok (cd.props ++ [⟨cur, fieldName, ty, [subFilters]⟩])
-  propsRes >>= fun props =>
+  recordProperty cd.props cur fieldName ty subFilters >>= fun props =>
   let ref := FieldRefM.context cur subName ty
-  -- `for output_directive in &subfield.output`
-  let rec outputs (st : St) : List OutputDirective → FRes St
-    | [] => .ok st
-    | o :: rest =>
-      (match o.name with
-       | some explicit => st.registerOutput explicit ref
-       | none => st.registerLocalOutput (subAlias.getD subName) "" ref >>= fun r => .ok r.1)
-      >>= fun st' => outputs st' rest
-  outputs st subOutputs >>= fun st1 =>
-  -- `for tag_directive in &subfield.tag`
-  let rec tags (st : St) (errs : List FrontErr) : List TagDirective → St × List FrontErr
-    | [] => (st, errs)
-    | t :: rest =>
-      let tagName := t.name.getD (subAlias.getD subName)
-      let r := st.registerTag tagName ref
-      tags r.1 (if r.2 then errs else errs ++ [.MultipleTagsWithSameName]) rest
-  let r := tags st1 [] subTags
+  registerPropertyOutputs ref (subAlias.getD subName) st subOutputs >>= fun st1 =>
+  let r := registerPropertyTags ref (subAlias.getD subName) st1 [] subTags
   .ok (r.1, { cd with props := props }, e1 ++ r.2)
 
+/-- A loop `for filter_directive in ..: match make_filter_expr(..)`: errors and variable uses are
+accumulated, the handler state is threaded. -/
+def filtersLoop (vid : Vid) (ty : FTy) (st : St) (errs : List FrontErr)
+    (uses : List (String × FTy)) :
+    List FilterDirective → FRes (St × List FrontErr × List (String × FTy))
+  | [] => .ok (st, errs, uses)
+  | fd :: rest =>
+    makeFilterExpr st vid ty fd >>= fun r =>
+    match r.2 with
+    | .ok (some u) => filtersLoop vid ty r.1 errs (uses ++ [u]) rest
+    | .ok none => filtersLoop vid ty r.1 errs uses rest
+    | .error es => filtersLoop vid ty r.1 (errs ++ es) uses rest
+
+/-- `for property_name in property_names_by_vertex.get(&vid)` in `make_vertex` (mod.rs:785–809):
+the vertex's properties in first-occurrence order (`todo` runs over the component's property
+records, of which those of other vertices are skipped), each looked up again with
+`properties.get(&(vid, property_name)).unwrap()`. -/
+def vertexFilters (props : List PropRec) (vid : Vid) (st : St) (errs : List FrontErr)
+    (uses : List (String × FTy)) :
+    List PropRec → FRes (St × List FrontErr × List (String × FTy))
+  | [] => .ok (st, errs, uses)
+  | p :: rest =>
+    if p.vid != vid then vertexFilters props vid st errs uses rest
+    else
+      match props.find? (fun q => q.vid == p.vid && q.name == p.name) with
+      | none => .panic .propertyLookup
+      | some q =>
+        filtersLoop vid q.ty st errs uses q.occurrences.flatten >>= fun r =>
+        vertexFilters props vid r.1 r.2.1 r.2.2 rest
+
 /-- `make_vertex` for one recorded vertex: the new handler state and either the errors or the
-variable uses of the vertex's filters together with its final type name. -/
+vertex's final type name with the variable uses of its filters. -/
 def makeVertex (S : SchemaView) (props : List PropRec) (st : St) (v : VertexRec) :
     FRes (St × Except (List FrontErr) (String × List (String × FTy))) :=
   st.isComponentRoot v.vid >>= fun isFoldRoot =>
@@ -750,86 +789,101 @@ def makeVertex (S : SchemaView) (props : List PropRec) (st : St) (v : VertexRec)
   match typeName with
   | none => .ok (st, .error (e1 ++ [.NonExistentType]))
   | some tn =>
-    -- `for property_name in property_names_by_vertex.get(&vid)`: the vertex's properties in
-    -- first-occurrence order, each `properties.get(..).unwrap()`
-    let rec filters (ty : FTy) (st : St) (errs : List FrontErr) (uses : List (String × FTy)) :
-        List FilterDirective → FRes (St × List FrontErr × List (String × FTy))
-      | [] => .ok (st, errs, uses)
-      | fd :: rest =>
-        makeFilterExpr st v.vid ty fd >>= fun r =>
-        match r.2 with
-        | .ok (some u) => filters ty r.1 errs (uses ++ [u]) rest
-        | .ok none => filters ty r.1 errs uses rest
-        | .error es => filters ty r.1 (errs ++ es) uses rest
-    let rec perProp (st : St) (errs : List FrontErr) (uses : List (String × FTy)) :
-        List PropRec → FRes (St × List FrontErr × List (String × FTy))
-      | [] => .ok (st, errs, uses)
-      | p :: rest =>
-        if p.vid != v.vid then perProp st errs uses rest
-        else
-          -- `properties.get(&(vid, property_name)).unwrap()`
-          match props.find? (fun q => q.vid == p.vid && q.name == p.name) with
-          | none => .panic .propertyLookup
-          | some q =>
-            filters q.ty st errs uses q.occurrences.flatten >>= fun r =>
-            perProp r.1 r.2.1 r.2.2 rest
-    perProp st e1 [] props >>= fun r =>
+    vertexFilters props v.vid st e1 [] props >>= fun r =>
     if r.2.1.isEmpty then .ok (r.1, .ok (tn, r.2.2)) else .ok (r.1, .error r.2.1)
+
+/-- `vertices.iter().map(make_vertex)` with the `filter_map` that collects errors, and
+`.try_collect_unique().unwrap()` (mod.rs:492–514). -/
+def verticesLoop (S : SchemaView) (props : List PropRec) (st : St) (errs : List FrontErr)
+    (done : List (Vid × String)) (uses : List (String × FTy)) :
+    List VertexRec → FRes (St × List FrontErr × List (Vid × String) × List (String × FTy))
+  | [] => .ok (st, errs, done, uses)
+  | v :: rest =>
+    makeVertex S props st v >>= fun r =>
+    match r.2 with
+    | .ok (tn, us) =>
+      if done.any (·.1 == v.vid) then .panic .vertexCollect
+      else verticesLoop S props r.1 errs (done ++ [(v.vid, tn)]) (uses ++ us) rest
+    | .error es => verticesLoop S props r.1 (errs ++ es) done uses rest
+
+/-- The loop over `edges` in `make_query_component` (mod.rs:520–570). -/
+def edgesLoop (S : SchemaView) (irVertices : List (Vid × String)) (errs : List FrontErr) :
+    List EdgeRec → FRes (List FrontErr)
+  | [] => .ok errs
+  | e :: rest =>
+    -- `&ir_vertices[from_vid].type_name`
+    match irVertices.find? (·.1 == e.fromVid) with
+    | none => .panic .edgeFromVertexIndex
+    | some (_, fromType) =>
+      getEdgeDefinition S fromType e.conn.name .edgeLookup >>= fun edgeDef =>
+      makeEdgeParameters edgeDef e.conn.arguments >>= fun paramErrs =>
+      (match e.conn.recurse with
+       | none => .ok none
+       | some _ => getRecurseImplicitCoercion S fromType edgeDef) >>= fun recErr =>
+      edgesLoop S irVertices (errs ++ recErr.toList ++ paramErrs) rest
+
+/-- The context-field outputs of a component (`hacked_outputs`, mod.rs:586–592). -/
+def contextOutputTypes (outs : List (String × FieldRefM)) : List FTy :=
+  outs.filterMap (fun o =>
+    match o.2 with
+    | .context _ _ ty => some ty
+    | .foldCount .. => none)
 
 /-- The part of `make_query_component` after `fill_in_vertex_data` (mod.rs:492–600). -/
 def componentPost (S : SchemaView) (st : St) (cd : CD) (fillErrs : List FrontErr) :
     FRes (St × Except (List FrontErr) CompIR) :=
-  -- `vertices.iter().map(make_vertex)`, errors collected in order
-  let rec vertices (st : St) (errs : List FrontErr) (done : List (Vid × String))
-      (uses : List (String × FTy)) :
-      List VertexRec → FRes (St × List FrontErr × List (Vid × String) × List (String × FTy))
-    | [] => .ok (st, errs, done, uses)
-    | v :: rest =>
-      makeVertex S cd.props st v >>= fun r =>
-      match r.2 with
-      | .ok (tn, us) =>
-        -- `.try_collect_unique().unwrap()`
-        if done.any (·.1 == v.vid) then .panic .vertexCollect
-        else vertices r.1 errs (done ++ [(v.vid, tn)]) (uses ++ us) rest
-      | .error es => vertices r.1 (errs ++ es) done uses rest
-  vertices st fillErrs [] [] cd.vertices >>= fun r =>
-  let st1 := r.1
-  let errs := r.2.1
-  let irVertices := r.2.2.1
-  let uses := r.2.2.2
-  if !errs.isEmpty then .ok (st1, .error errs)
+  verticesLoop S cd.props st fillErrs [] [] cd.vertices >>= fun r =>
+  if !r.2.1.isEmpty then .ok (r.1, .error r.2.1)
   else
-    -- the loop over `edges`
-    let rec edges (errs : List FrontErr) : List EdgeRec → FRes (List FrontErr)
-      | [] => .ok errs
-      | e :: rest =>
-        -- `&ir_vertices[from_vid].type_name`
-        match irVertices.find? (·.1 == e.fromVid) with
-        | none => .panic .edgeFromVertexIndex
-        | some (_, fromType) =>
-          getEdgeDefinition S fromType e.conn.name .edgeLookup >>= fun edgeDef =>
-          makeEdgeParameters edgeDef e.conn.arguments >>= fun paramErrs =>
-          (match e.conn.recurse with
-           | none => .ok none
-           | some _ => getRecurseImplicitCoercion S fromType edgeDef) >>= fun recErr =>
-          edges (errs ++ recErr.toList ++ paramErrs) rest
-    edges [] cd.edges >>= fun edgeErrs =>
-    if !edgeErrs.isEmpty then .ok (st1, .error edgeErrs)
+    edgesLoop S r.2.2.1 [] cd.edges >>= fun edgeErrs =>
+    if !edgeErrs.isEmpty then .ok (r.1, .error edgeErrs)
     else
-      st1.outputsEndSubcomponent >>= fun r2 =>
-      let st2 := r2.1
-      let outs := r2.2
-      if !(duplicateNames outs).isEmpty then
+      r.1.outputsEndSubcomponent >>= fun r2 =>
+      if !(duplicateNames r2.2).isEmpty then
         -- `make_duplicated_output_names_error(&ir_vertices, duplicates)`: `ir_vertices[&vid]`
-        if (duplicateRefs outs).all (fun f => irVertices.any (·.1 == f.vid)) then
-          .ok (st2, .error [.MultipleOutputsWithSameName])
+        if (duplicateRefs r2.2).all (fun f => r.2.2.1.any (·.1 == f.vid)) then
+          .ok (r2.1, .error [.MultipleOutputsWithSameName])
         else .panic .dupOutputVertexIndex
       else
-        let contextOutputs := outs.filterMap (fun o =>
-          match o.2 with
-          | .context _ _ ty => some ty
-          | .foldCount .. => none)
-        .ok (st2, .ok (.mk (irVertices.map (·.1)) uses contextOutputs cd.folds))
+        .ok (r2.1, .ok (.mk (r.2.2.1.map (·.1)) r.2.2.2 (contextOutputTypes r2.2) cd.folds))
+
+/-- `for output in &transform_group.output` in `make_fold` (mod.rs:1136–1173). -/
+def foldOutputs (field : FieldRefM) (localName : String) (st : St) (errs : List FrontErr)
+    (names : List String) : List OutputDirective → FRes (St × List FrontErr × List String)
+  | [] => .ok (st, errs, names)
+  | o :: rest =>
+    (match o.name with
+     | some explicit => st.registerOutput explicit field >>= fun st' => .ok (st', explicit)
+     | none => st.registerLocalOutput localName "count" field)
+    >>= fun r =>
+    -- `fold_specific_outputs.insert(final_output_name, kind)`
+    if names.contains r.2 then
+      foldOutputs field localName r.1 (errs ++ [.MultipleOutputsWithSameName]) names rest
+    else foldOutputs field localName r.1 errs (names ++ [r.2]) rest
+
+/-- `for tag_directive in &transform_group.tag` in `make_fold` (mod.rs:1174–1187). -/
+def foldTags (field : FieldRefM) (st : St) (errs : List FrontErr) :
+    List TagDirective → St × List FrontErr
+  | [] => (st, errs)
+  | t :: rest =>
+    match t.name with
+    | some tagName =>
+      let r := st.registerTag tagName field
+      foldTags field r.1 (if r.2 then errs else errs ++ [.MultipleTagsWithSameName]) rest
+    | none => foldTags field st (errs ++ [.ExplicitTagNameRequired]) rest
+
+/-- The transform part of `make_fold` (mod.rs:1109–1188). -/
+def foldTransform (st : St) (tg : TransformGroup) (foldEid : Eid) (startVid : Vid)
+    (subName : String) (subAlias : Option String) (e0 : List FrontErr) :
+    FRes (St × List FrontErr × List (String × FTy) × Nat) :=
+  if tg.retransform.isSome then .panic .retransform
+  else
+    let field := FieldRefM.foldCount foldEid startVid
+    filtersLoop startVid (FTy.named "Int" false) st e0 [] tg.filters >>= fun rf =>
+    foldOutputs field (if subAlias.isSome then "" else subName) rf.1 rf.2.1 [] tg.outputs
+    >>= fun ro =>
+    let rt := foldTags field ro.1 ro.2.1 tg.tags
+    .ok (rt.1, rt.2, rf.2.2, ro.2.2.length)
 
 /-- The part of `make_fold` after `make_query_component` returned `Ok` (mod.rs:1097–1204). -/
 def foldPost (st : St) (fg : FoldGroup) (foldEid : Eid) (startVid : Vid)
@@ -837,49 +891,33 @@ def foldPost (st : St) (fg : FoldGroup) (foldEid : Eid) (startVid : Vid)
     FRes (St × Except (List FrontErr) FoldIR) :=
   st.pathPop startVid >>= fun st1 =>
   st1.tagsEndSubcomponent startVid >>= fun r =>
-  let st2 := r.1
   let e0 := if subHasOutput then [FrontErr.UnsupportedEdgeOutput] else []
   match fg.transform with
-  | none => if e0.isEmpty then .ok (st2, .ok ([], 0, comp)) else .ok (st2, .error e0)
+  | none => if e0.isEmpty then .ok (r.1, .ok ([], 0, comp)) else .ok (r.1, .error e0)
   | some tg =>
-    if tg.retransform.isSome then .panic .retransform
-    else
-      let field := FieldRefM.foldCount foldEid startVid
-      let countType := FTy.named "Int" false
-      let rec filters (st : St) (errs : List FrontErr) (uses : List (String × FTy)) :
-          List FilterDirective → FRes (St × List FrontErr × List (String × FTy))
-        | [] => .ok (st, errs, uses)
-        | fd :: rest =>
-          makeFilterExpr st startVid countType fd >>= fun r =>
-          match r.2 with
-          | .ok (some u) => filters r.1 errs (uses ++ [u]) rest
-          | .ok none => filters r.1 errs uses rest
-          | .error es => filters r.1 (errs ++ es) uses rest
-      filters st2 e0 [] tg.filters >>= fun rf =>
-      let rec outputs (st : St) (errs : List FrontErr) (names : List String) :
-          List OutputDirective → FRes (St × List FrontErr × List String)
-        | [] => .ok (st, errs, names)
-        | o :: rest =>
-          (match o.name with
-           | some explicit => st.registerOutput explicit field >>= fun st' => .ok (st', explicit)
-           | none =>
-             st.registerLocalOutput (if subAlias.isSome then "" else subName) "count" field)
-          >>= fun r =>
-          -- `fold_specific_outputs.insert(final_output_name, kind)`
-          if names.contains r.2 then outputs r.1 (errs ++ [.MultipleOutputsWithSameName]) names rest
-          else outputs r.1 errs (names ++ [r.2]) rest
-      outputs rf.1 rf.2.1 [] tg.outputs >>= fun ro =>
-      let rec tags (st : St) (errs : List FrontErr) : List TagDirective → St × List FrontErr
-        | [] => (st, errs)
-        | t :: rest =>
-          match t.name with
-          | some tagName =>
-            let r := st.registerTag tagName field
-            tags r.1 (if r.2 then errs else errs ++ [.MultipleTagsWithSameName]) rest
-          | none => tags st (errs ++ [.ExplicitTagNameRequired]) rest
-      let rt := tags ro.1 ro.2.1 tg.tags
-      if rt.2.isEmpty then .ok (rt.1, .ok (rf.2.2, ro.2.2.length, comp))
-      else .ok (rt.1, .error rt.2)
+    foldTransform r.1 tg foldEid startVid subName subAlias e0 >>= fun t =>
+    if t.2.1.isEmpty then .ok (t.1, .ok (t.2.2.1, t.2.2.2, comp)) else .ok (t.1, .error t.2.1)
+
+/-- The pushes at the head of `make_fold` and of the `make_query_component` it calls
+(mod.rs:1079–1080, 467). -/
+def foldEnter (st : St) (startVid : Vid) : St :=
+  ((st.pathPush startVid).tagsBeginSubcomponent startVid).outputsBeginSubcomponent
+
+/-- `make_fold` from the return of `fill_in_vertex_data` on: the rest of `make_query_component`,
+the `?` (on `Err` the path and tag stacks stay pushed), the rest of `make_fold`, and what
+`fill_in_vertex_data` does with the result (mod.rs:904–910). `cd` is the enclosing component's
+data, `e1` the `UnsupportedDirectiveOnFoldedEdge` errors already recorded for this edge. -/
+def foldAfterFill (S : SchemaView) (fg : FoldGroup) (foldEid : Eid) (startVid : Vid)
+    (subName : String) (subAlias : Option String) (subHasOutput : Bool) (cd : CD)
+    (e1 : List FrontErr) (r : St × CD × List FrontErr) : FRes (St × CD × List FrontErr) :=
+  componentPost S r.1 r.2.1 r.2.2 >>= fun c =>
+  match c.2 with
+  | .error es => .ok (c.1, cd, e1 ++ es)
+  | .ok comp =>
+    foldPost c.1 fg foldEid startVid subName subAlias subHasOutput comp >>= fun f =>
+    match f.2 with
+    | .error es => .ok (f.1, cd, e1 ++ es)
+    | .ok fold => .ok (f.1, { cd with folds := cd.folds ++ [fold] }, e1)
 
 mutual
 /-- `fill_in_vertex_data(.., current_vid, pre_coercion_type, post_coercion_type, current_field)`. -/
@@ -919,19 +957,8 @@ def fillConnections (S : SchemaView) (cur : Vid) (postType : String) (defined : 
           if !paramErrs.isEmpty then .ok (st1, cd, e1 ++ paramErrs)
           else
             -- `make_fold`: push the component, `make_query_component`, then the rest
-            let st2 := ((st1.pathPush nextVid).tagsBeginSubcomponent nextVid).outputsBeginSubcomponent
-            fillNode S nextVid subPre subPost sub st2 CD.empty >>= fun r =>
-            componentPost S r.1 r.2.1 r.2.2 >>= fun c =>
-            match c.2 with
-            | .error es => .ok (c.1, cd, e1 ++ es)     -- `?`: the path and tag stacks stay pushed
-            | .ok comp =>
-              foldPost c.1 fg nextEid nextVid sub.name sub.alias (!sub.outputs.isEmpty) comp
-              >>= fun f =>
-              match f.2 with
-              | .error es => .ok (f.1, cd, e1 ++ es)
-              | .ok fold =>
-                if e1.isEmpty then .ok (f.1, { cd with folds := cd.folds ++ [fold] }, [])
-                else .ok (f.1, { cd with folds := cd.folds ++ [fold] }, e1)
+            fillNode S nextVid subPre subPost sub (foldEnter st1 nextVid) CD.empty >>=
+            foldAfterFill S fg nextEid nextVid sub.name sub.alias (!sub.outputs.isEmpty) cd e1
         | none =>
           -- `edges.insert_or_error(next_eid, ..).expect(..)`
           if cd.edges.any (·.eid == nextEid) then .panic .edgeInsert
